@@ -288,6 +288,49 @@ pub(crate) fn mutated_sdes() -> BoxedStrategy<Bytes> {
 const ALPHA6: &[u8] = &[0, 1, 2, 3, 8, 255];
 const ALPHA4: &[u8] = &[0, 1, 2, 8];
 
+/// large and many-chunk packets: a single chunk beyond 64 KiB, a thousand short items, more chunks than the
+/// 5-bit source count can announce (an either-zone: if accepted, all of them must be yielded), the same
+/// with a defect behind the 31st chunk (must be rejected)
+fn large_sdes() -> Vec<Bytes> {
+    let item = |ty: u8, len: usize| ItemSpec { ty, prefix: vec![], value: "v".repeat(len) };
+    let chunk_bytes = |c: &ChunkSpec| ref_encode_chunk(c);
+    let mut v = Vec::new();
+    // one chunk of 257 items of 255 bytes: 66 KiB
+    v.push(Bytes(frame(&chunk_bytes(&ChunkSpec { ssrc: 0x0102_0304, items: (0..257).map(|i| item(1 + (i % 7) as u8, 253)).collect() }), 1, 0)));
+    // the same, padded
+    v.push(Bytes(frame(&chunk_bytes(&ChunkSpec { ssrc: 0x0102_0304, items: (0..260).map(|i| item(1 + (i % 7) as u8, 250 + i % 6)).collect() }), 1, 8)));
+    // a thousand items of two bytes, PRIV items among them
+    v.push(Bytes(frame(
+        &chunk_bytes(&ChunkSpec { ssrc: 7, items: (0..1000).map(|i| if i % 5 == 0 { ItemSpec { ty: 8, prefix: vec![9], value: "w".into() } } else { item(2, 0) }).collect() }),
+        1,
+        0,
+    )));
+    // 31, 32, 33, 40, 64 chunks of one item each
+    for n in [31usize, 32, 33, 40, 64] {
+        let mut body = Vec::new();
+        for k in 0..n {
+            body.extend_from_slice(&chunk_bytes(&ChunkSpec { ssrc: k as u32, items: vec![item(1, k % 9)] }));
+        }
+        v.push(Bytes(frame(&body, (n & 31) as u8, 0)));
+        v.push(Bytes(frame(&body, 31, 4)));
+        // a defect in the last chunk: its item announces 200 bytes
+        let mut bad = body.clone();
+        let at = bad.len() - chunk_bytes(&ChunkSpec { ssrc: 0, items: vec![item(1, (n - 1) % 9)] }).len() + 5;
+        bad[at] = 200;
+        v.push(Bytes(frame(&bad, 31, 0)));
+        // non-zero fill behind the last chunk's terminator
+        if let Some(l) = body.last_mut() {
+            if (n - 1) % 9 % 4 != 1 {
+                *l = 0x55;
+                v.push(Bytes(frame(&body, 31, 0)));
+            }
+        }
+    }
+    // 64 empty chunks
+    v.push(Bytes(frame(&vec![0u8; 8 * 64], 0, 0)));
+    v
+}
+
 pub fn c10(tier: Tier) -> Check {
     let mut legs: Vec<Box<dyn Leg>> = Vec::new();
     {
@@ -298,6 +341,7 @@ pub fn c10(tier: Tier) -> Check {
         let (n, at) = exhaustive_leg(ALPHA4, 12);
         legs.push(Box::new(SweepLeg { name: "exhaustive-bodies-{0,1,2,8}^12", n, at: Box::new(at), oracle: c10_oracle, exhaustive: true }));
     }
+    legs.push(Box::new(ListLeg { name: "large-and-many-chunk-packets", cases: large_sdes(), oracle: c10_oracle }));
     legs.push(Box::new(RandomLeg { name: "token-level-bodies", cases: tier.pick(600_000, 5_000_000), make: Box::new(token_level), oracle: c10_oracle }));
     legs.push(Box::new(RandomLeg { name: "well-formed-from-reference-encoder", cases: tier.pick(120_000, 1_000_000), make: Box::new(well_formed), oracle: c10_oracle }));
     legs.push(Box::new(RandomLeg { name: "mutated-well-formed", cases: tier.pick(180_000, 1_500_000), make: Box::new(mutated_sdes), oracle: c10_oracle }));
